@@ -21,6 +21,8 @@ def run(chk, F):
     chk.guard("remainder-threading", "to_list", lambda: threading(chk, F))
     chk.guard("positional-pairing", "to_list", lambda: pairing(chk, F))
     chk.guard("positive-units", "to_list", lambda: positive_units(chk, F))
+    import c03
+    chk.guard("target-consumed", "parse_query", lambda: c03.target_consumed(chk, F))
     chk.guard("div_rem-shape", "Numeric::div_rem", lambda: div_rem(chk, F))
     chk.guard("exactness", "to_list", lambda: exact(chk, F))
     chk.guard("duration-breakdown", "eval_query", lambda: duration(chk, F))
